@@ -270,7 +270,9 @@ def h_rand_samplers(ctx, n, m):
 def instances(tier):
     out = []
     quick = tier == 'quick'
-    for n, r in ([([2, 2], 2), ([2, 3], 1), ([2, 2, 2], 2)] if quick else [([2, 2], 2), ([2, 3], 2), ([2, 2, 2], 2), ([3, 2, 2], 2)]):
+    # (modes of size 1 in the middle / at the ends carry a rank-2 bond on both sides)
+    for n, r in ([([2, 2], 2), ([2, 3], 1), ([2, 2, 2], 2), ([2, 1, 2], 2), ([1, 2, 1], 2)] if quick else
+                 [([2, 2], 2), ([2, 3], 2), ([2, 2, 2], 2), ([3, 2, 2], 2), ([2, 1, 2], 2), ([1, 2, 1], 2), ([2, 1, 1, 2], 2)]):
         for tgt in multi_indices(n):
             out.append({'func': 'h_sample_prob', 'params': {'n': n, 'r': r, 'target': list(tgt)},
                         'opts': {'generic_divisors': True}})
